@@ -325,6 +325,8 @@ fn on_element<H: HandlerTypes>(
     if !ops.is_empty() {
         ev["ops"] = json!(ops);
         if !light { ev["post"] = el_snapshot(el, false); }
+        // the range is a property of the source, not of the edits
+        ev["loc2"] = loc(el.source_location());
     }
     ev["fail"] = json!(must_fail || fail);
     log.lock().unwrap().tl.push(ev);
@@ -391,6 +393,7 @@ fn on_end_tag(et: &mut EndTag<'_>, script: &[Value], hid: &str, log: &SLog) -> H
     }
     if !res.is_empty() {
         ev["ops"] = json!(res);
+        ev["loc2"] = loc(et.source_location());
     }
     ev["fail"] = json!(must_fail || fail);
     log.lock().unwrap().tl.push(ev);
@@ -457,6 +460,7 @@ fn on_comment(c: &mut Comment<'_>, script: &[Value], hid: &str, log: &SLog) -> H
     if !res.is_empty() {
         ev["ops"] = json!(res);
         ev["post"] = json!({"text": s2cp(&c.text())});
+        ev["loc2"] = loc(c.source_location());
     }
     ev["fail"] = json!(must_fail || fail);
     log.lock().unwrap().tl.push(ev);
@@ -531,6 +535,7 @@ fn on_text(t: &mut TextChunk<'_>, script: &[Value], hid: &str, log: &SLog) -> Ha
     }
     if !res.is_empty() {
         ev["ops"] = json!(res);
+        ev["loc2"] = loc(t.source_location());
     }
     ev["fail"] = json!(must_fail || fail);
     log.lock().unwrap().tl.push(ev);
@@ -572,6 +577,7 @@ fn on_doctype(d: &mut Doctype<'_>, script: &[Value], hid: &str, log: &SLog) -> H
     }
     if !res.is_empty() {
         ev["ops"] = json!(res);
+        ev["loc2"] = loc(d.source_location());
     }
     ev["fail"] = json!(must_fail || fail);
     log.lock().unwrap().tl.push(ev);
@@ -610,6 +616,7 @@ fn on_doc_end(d: &mut DocumentEnd<'_>, script: &[Value], hid: &str, log: &SLog) 
     }
     if !res.is_empty() {
         ev["ops"] = json!(res);
+
     }
     ev["fail"] = json!(must_fail || fail);
     log.lock().unwrap().tl.push(ev);
